@@ -68,6 +68,11 @@ def pure' (line : List String) : Option String :=
   | ["lpcall", e0, a, b, e, u] => some (fF (logparCallU (pF e0) (pF a) (pF b) (pF e) (pU u)))
   | ["lpint", e0, a, b, e1, e2, u, n] =>
       some (fF (simpsonLog (logparCall (pF e0) (pF a) (pF b)) (conv (pF e1) (pU u)) (conv (pF e2) (pU u)) (pN n)))
+  | ["ufactor", own, arg] => some (match unitFactor (pF own) (pU arg) with
+      | some f => fF f
+      | none => "-")
+  | ["tointernal", sa, se, sl, st, ia, ie, il, it] =>
+      some (fF (toInternalFlux (pF sa) (pF se) (pF sl) (pF st) (pF ia) (pF ie) (pF il) (pF it)))
   | ["boxnew", t0, tw] => let w := boxNew (pF t0) (pF tw); some s!"{fF w.tStart},{fF w.tStop}"
   | ["boxcall", s, e, t] => some (fF (boxCall ⟨pF s, pF e⟩ (pF t)))
   | ["boxint", s, e, t1, t2] => some (fF (boxIntegral ⟨pF s, pF e⟩ (pF t1) (pF t2)))
@@ -111,6 +116,19 @@ def stepLine (h : Heap Float) (line : String) : Heap Float × String :=
   | ["move", i, dt] => match h.move (pN i) (pF dt) with
       | some h' => (h', "ok")
       | none => (h, "ERR")
+  | ["setv", i, pd] =>
+      if pN i < h.length then
+        let pdv : PDictV Float := pList (fun kv => match kv.splitOn "=" with
+          | [k, "BAD"] => (PName.ofString k, PVal.bad)
+          | [k, "ARR"] => (PName.ofString k, PVal.arr)
+          | [k, v] => (PName.ofString k, PVal.num (pF v))
+          | _ => (PName.other, PVal.bad)) pd
+        let r := h.setParamsV pn (pN i) pdv
+        (r.1, match r.2.2 with
+          | some .typeError => "EXC:TypeError"
+          | some .valueError => "EXC:ValueError"
+          | none => fB r.2.1)
+      else (h, "ERR")
   | ["moveu", i, dt, u] => match h.moveU (pN i) (pF dt) (pU u) with
       | some h' => (h', "ok")
       | none => (h, "ERR")
